@@ -182,8 +182,9 @@ func c02nObserve(h *vHarness, w *c02World, m *c02Mgr) {
 // c02nScaleNamed: min scaling only looks at the dimensions that the total last handed to the root calculator NAMES
 // (`for resName := range newTotalRes`), and that list is replaced only when it changes by value.  A dimension that
 // reads 0 because no current node names it (or a cluster whose every amount is 0 from the start) is therefore scaled
-// or not depending on the history.  With the anchor node (default) this cannot happen; the exhibit stream
-// VERIF_C02_NODES_NOANCHOR=1 ends such a case with its own fingerprint.
+// or not depending on the history: open known finding C02:scale-skips-dimension-total-does-not-name.  With the anchor
+// node (random stream) this cannot happen; the 6 directed no-anchor cases of TestVerifC02Nodes and the wider exhibit
+// stream VERIF_C02_NODES_NOANCHOR=1 end such a case with exactly that fingerprint.
 func c02nScaleNamed(h *vHarness, w *c02World, m *c02Mgr) bool {
 	if !w.scale {
 		return true
@@ -265,6 +266,7 @@ func TestVerifC02Nodes(t *testing.T) {
 		t.Fatalf("feature gate: %v", err)
 	}
 	const directed = 4
+	const unnamed = 6 // directed cases of the open known finding C02:scale-skips-dimension-total-does-not-name
 	noAnchor := os.Getenv("VERIF_C02_NODES_NOANCHOR") == "1"
 	n := h.N(500, 12000)
 	for idx := 0; idx < n; idx++ {
@@ -313,6 +315,67 @@ func TestVerifC02Nodes(t *testing.T) {
 			h.Tag(fmt.Sprintf("nodes:directed:%d", idx))
 			c02nObserve(h, w, m)
 			c02SpecCheck(h, w, m, r)
+			h.End()
+			continue
+		}
+		if idx < directed+unnamed {
+			// ---- directed, min scaling ON, NO anchor node: the class of the open known finding
+			// C02:scale-skips-dimension-total-does-not-name — a dimension in which top-level quotas declare a minimum
+			// reads 0 over the current nodes, and the total this manager (or a manager fed the current nodes) scales
+			// against does not NAME it.  Each case ends at c02nScaleNamed with that fingerprint.
+			//   0: a single node {gpu:6}                      1: a cluster that is all-zero from the start
+			//   2: the node's cpu key vanishes (history names cpu, a fresh manager does not)
+			//   3: the node drops to all-zero                 4: the only node naming cpu / memory is deleted
+			//   5: no node at all
+			w.scale = true
+			h.Tag(fmt.Sprintf("nodes:directed-unnamed:%d", idx-directed))
+			m = c02NewMgr(w)
+			full := c02RLd{0: 8000, 1: 32 << 30, 2: 6}
+			var evs []func() bool
+			switch idx - directed {
+			case 0:
+				evs = append(evs, func() bool { return c02nAdd(h, w, m, 1, c02RLd{2: 6}) })
+			case 1:
+				evs = append(evs, func() bool { return c02nAdd(h, w, m, 1, c02RLd{0: 0, 1: 0, 2: 0}) })
+			case 2:
+				evs = append(evs, func() bool { return c02nAdd(h, w, m, 1, full) },
+					func() bool { return c02nUpdate(h, w, m, 1, full, c02RLd{1: 32 << 30, 2: 6}) })
+			case 3:
+				evs = append(evs, func() bool { return c02nAdd(h, w, m, 1, full) },
+					func() bool { return c02nUpdate(h, w, m, 1, full, c02RLd{0: 0, 1: 0, 2: 0}) })
+			case 4:
+				evs = append(evs, func() bool { return c02nAdd(h, w, m, 1, full) },
+					func() bool { return c02nAdd(h, w, m, 2, c02RLd{2: 4}) },
+					func() bool { return c02nDelete(h, w, m, 1, full) })
+			}
+			for _, ev := range evs {
+				if crashed = ev(); crashed {
+					break
+				}
+				c02nObserve(h, w, m)
+			}
+			h.Op("step 0")
+			if crashed {
+				finish("a node event")
+				h.End()
+				continue
+			}
+			h.Obs("step 0")
+			for i := 1; i <= 2; i++ {
+				q := &c02D{id: i, name: fmt.Sprintf("q%03d", i), present: true, max: c02RLd{0: 16000, 1: 64 << 30, 2: 8},
+					min: c02RLd{0: 4000, 1: 8 << 30, 2: 2}}
+				w.qs = append(w.qs, q)
+				if err := m.gqm.UpdateQuota(c02Build(w, q)); err != nil {
+					t.Fatalf("UpdateQuota: %v", err)
+				}
+				nw := [3]int64{12000, 48 << 30, 5}
+				m.setReq(q, q.req, nw)
+				q.req = nw
+			}
+			w.total = w.nodes.sum()
+			if c02nScaleNamed(h, w, m) { // not reached on the unchanged tree
+				c02SpecCheck(h, w, m, r)
+			}
 			h.End()
 			continue
 		}
@@ -513,7 +576,7 @@ func TestVerifC02Nodes(t *testing.T) {
 		"4 directed cases (two nodes with 8 GPUs each, siblings with min 4 / request 8; node 1 loses the gpu key / drops to an explicit 0 / loses the memory key / is deleted), then histories of 4-10 steps over " +
 		"0-3 early nodes + 2-4 top-level quotas (one often a parent) + node add (1/5 of them first seen in an update; a deleted node may return under its old name), allocatable update (value change, drop to explicit 0, key vanishes, key appears with a value or 0; " +
 		"the third dimension example.com/gpu twice as often), equal update (other map instance, nil vs {}), replayed add, delete, delete of an unknown node, leaf request / min changes, ResetQuota (whole tree rebuilt); min scaling on in 1/4 " +
-		"(then node 1 always names every dimension and is never deleted); after every node event the manager's total, the root calculator's total and the known node set are compared with the from-scratch sum over the " +
+		"(then, in the random stream, node 1 always names every dimension, offers some cpu and is never deleted; 6 directed cases WITHOUT that node — single node {gpu:6}, all-zero cluster from the start, cpu key vanishes, drop to all-zero, the naming node deleted, no node — end with the open known finding C02:scale-skips-dimension-total-does-not-name); after every node event the manager's total, the root calculator's total and the known node set are compared with the from-scratch sum over the " +
 		"current nodes, then the spec harness's per-level blocks, runtime oracle and fresh manager (fed the final nodes with OnNodeAdd) run with that sum as the cluster total; non-trivial = a level with >=2 siblings")
 }
 
